@@ -461,6 +461,8 @@ def b_unary(P, s, a, b, c, name):
         "numel": lambda t: t.numel(),
         "size": lambda t: tuple(t.size()),
         "dim": lambda t: t.dim(),
+        "numpy_sum": lambda t: float(t.numpy().astype("float64").sum()),
+        "repr": lambda t: isinstance(repr(t), str) and isinstance(str(t), str),
         "is_contiguous": None,
     }
     fn = PASS.get(name)
@@ -490,6 +492,7 @@ def b_binary(P, s, a, b, c, name):
         "lt_m": lambda x, y: x < y,
         "gt": torch.gt,
         "eq": torch.eq,
+        "is_same_size": lambda x, y: bool(torch.ops.aten.is_same_size(x, y)),
     }
     fn = FN[name]
     order = [("p", i)] + ops
@@ -601,9 +604,9 @@ BUILDERS["copy_"] = b_copy_
 for _n in ("mul_scalar", "rmul_scalar", "div_scalar", "rdiv_scalar"):
     BUILDERS[_n] = b_scalar
 for _n in ("neg", "relu", "frelu", "softmax", "fsoftmax", "abs", "exp", "tanh", "gelu", "silu", "sum", "mean", "amax", "argmax", "sort", "cumsum",
-           "log_softmax", "layer_norm", "topk", "zeros_like", "ones_like", "sign", "square", "isfinite", "std", "masked_fill", "tolist_sum", "numel", "size", "dim"):
+           "log_softmax", "layer_norm", "topk", "zeros_like", "ones_like", "sign", "square", "isfinite", "std", "masked_fill", "tolist_sum", "numel", "size", "dim", "numpy_sum", "repr"):
     BUILDERS[_n] = b_unary
-for _n in ("add", "sub", "mul_tensor", "div_tensor", "maximum", "equal", "cosine_similarity", "lt", "lt_m", "gt", "eq"):
+for _n in ("add", "sub", "mul_tensor", "div_tensor", "maximum", "equal", "cosine_similarity", "lt", "lt_m", "gt", "eq", "is_same_size"):
     BUILDERS[_n] = b_binary
 BUILDERS["lt_scalar"] = b_lt_scalar
 BUILDERS["where"] = b_where
@@ -622,7 +625,7 @@ INTERCEPTED = ["view", "reshape", "flatten", "unflatten", "t", "transpose", "per
                "fsoftmax", "where", "lt", "lt_m", "lt_scalar", "mm", "matmul2", "bmm", "matmul", "linear", "linear_nobias", "linear_nd", "pad"]
 PASSTHROUGH = ["abs", "exp", "tanh", "gelu", "silu", "sum", "mean", "amax", "argmax", "sort", "cumsum", "log_softmax", "layer_norm", "topk", "zeros_like",
                "ones_like", "sign", "square", "isfinite", "std", "masked_fill", "tolist_sum", "numel", "size", "dim", "add", "sub", "mul_tensor",
-               "div_tensor", "maximum", "equal", "cosine_similarity", "gt", "eq", "index_select", "flip"]
+               "div_tensor", "maximum", "equal", "cosine_similarity", "gt", "eq", "index_select", "flip", "numpy_sum", "repr", "is_same_size"]
 SEMANTIC = ["clone", "detach", "neg", "relu", "frelu", "mul_scalar", "rmul_scalar", "div_scalar", "where", "lt", "lt_m", "lt_scalar", "softmax", "copy_", "cat", "stack", "split", "t", "transpose"]
 ALLOPS = INTERCEPTED + INTERCEPTED + SEMANTIC + SEMANTIC + PASSTHROUGH  # intercepted ops (and those acting on codes) more likely
 
